@@ -358,7 +358,7 @@ def _build_model_locked(gen):
     coq_makefile()
     h = hashlib.sha256()
     for f in sorted(os.listdir(COQ)):
-        if f.endswith(".v") and not f.startswith("Properties_") and (not f.endswith("_lemmas.v") or f == "Seek_lemmas.v"):
+        if f.endswith(".v") and not f.startswith("Properties_") and (not f.endswith("_lemmas.v") or f in ("Seek_lemmas.v", "SeekH_lemmas.v")):
             h.update(open(os.path.join(COQ, f), "rb").read())
     for f in sorted(os.listdir(ML)):
         if f.endswith(".ml"):
@@ -577,7 +577,7 @@ def diff_cases(il, ml, skip_prefixes=("prop ",)):
         if b is None:
             diffs.append({"case": k, "kind": "model produced no output for this case"})
             continue
-        b = [l for l in b if not l.startswith("thm ")]      # model-only lines (theorem hypotheses), read by the caller
+        b = [l for l in b if not l.startswith(("thm ", "thmh "))]      # model-only lines (theorem hypotheses), read by the caller
         if a != b:
             d = next((i for i in range(min(len(a), len(b))) if a[i] != b[i]), min(len(a), len(b)))
             diffs.append({"case": k, "line": d, "impl": a[d] if d < len(a) else None,
